@@ -291,7 +291,23 @@ fn run(case: &Value, stats: &mut Stats) -> RunResult<()> {
                     crate::ctl::CtlConfig { seed: op["seed"].as_u64().unwrap_or(1), strategy, early_fire: false, max_steps: 20_000, replay: None, plan: None },
                     false,
                 );
+                // the holder may still grow the file and flush before it goes away: an opener that
+                // looked at the file before it got the lock must not act on what it saw then
+                let grow = op["grow"].as_u64().unwrap_or(0) as usize;
+                tag = tag.wrapping_add(2);
+                let grow_tag = tag;
+                let flushed_by_dropper: std::sync::Arc<std::sync::Mutex<Option<BTreeMap<String, (usize, u64)>>>> = std::sync::Arc::new(std::sync::Mutex::new(None));
+                let fbd = flushed_by_dropper.clone();
                 let t0 = ctl.spawn("dropper", move || {
+                    if grow > 0
+                        && let Some(db) = handles.first().or(refs.first())
+                        && let Ok(r) = db.create_region_if_needed("grown")
+                        && r.write(&fill(grow_tag, grow)).is_ok()
+                        && db.flush().is_ok()
+                    {
+                        drop(r);
+                        *fbd.lock().unwrap() = Some(summarize(db));
+                    }
                     drop(handles);
                     drop(refs);
                 });
@@ -318,7 +334,17 @@ fn run(case: &Value, stats: &mut Stats) -> RunResult<()> {
                 stats.add("probe.teardown_pause_points", cstats.pauses_hit.values().sum::<usize>() as u64);
                 stats.bump("fault.opener_during_teardown");
                 let a = result.lock().unwrap().take();
+                let grown = flushed_by_dropper.lock().unwrap().take();
+                if let Some(g) = &grown {
+                    flushed = g.clone();
+                    unflushed = false;
+                    stats.bump("probe.holder_grew_and_flushed_during_race");
+                }
                 match a {
+                    Some(Attempt::Locked) if grown.is_some() => {
+                        // the holder itself changed the files meanwhile: only the refusal is judged
+                        stats.bump("probe.refused_during_teardown");
+                    }
                     Some(Attempt::Locked) => {
                         stats.bump("probe.refused_during_teardown");
                         let after = snapshot_files(&dir);
@@ -427,7 +453,8 @@ impl Check for C18Check {
                 9 => json!({"op":"drop_all","min_len":*rng.pick(&min_lens)}),
                 10 | 11 => json!({"op":"try_thread","min_len":*rng.pick(&min_lens)}),
                 12 => json!({"op":"try_child","min_len":*rng.pick(&min_lens)}),
-                _ if rng.chance(1, 2) => json!({"op":"race_drop_open","min_len":*rng.pick(&min_lens),"seed":rng.next(),"strategy":rng.below(3)}),
+                _ if rng.chance(1, 2) => json!({"op":"race_drop_open","min_len":*rng.pick(&min_lens),"seed":rng.next(),"strategy":rng.below(3),
+                    "grow":*rng.pick(&[0usize, 0, 3_000_000, 6_000_000])}),
                 _ => json!({"op":"open","min_len":*rng.pick(&min_lens)}),
             };
             ops.push(op);
